@@ -142,6 +142,7 @@ func C16(c *Ctx) {
 
 func C12(c *Ctx) {
 	R11ResponseHeaders(c)
+	R11DecoyStatus(c)
 	R1IndexSentinel(c)
 	R1DownScanFirst(c)
 	R11HTTPProfile(c)
